@@ -110,4 +110,11 @@ def circuit_case(draw, ns=(2, 3, 4, 5, 6), max_len=60):
                 ops.append([g, [q]])
             for g in draw(st.sampled_from(members.PAULI_WORDS)):
                 ops.append([g, [q]])
-    return {"n": n, "connectivity": name, "ops": ops, "format": "circuit"}
+    case = {"n": n, "connectivity": name, "ops": ops, "format": "circuit"}
+    extra = draw(st.integers(0, 5))
+    if extra == 0 and n >= 2:
+        cuts = sorted(set(draw(st.lists(st.integers(1, n - 1), min_size=1, max_size=2))))
+        case["registers"] = [b - a for a, b in zip([0] + cuts, cuts + [n])]
+    elif extra == 1:
+        case["metadata"] = {"experiment": "tag", "shots": 100}
+    return case
